@@ -22,6 +22,19 @@ var c02Cases = []faCase{
 	{name: "ident-mv-paren", idents: []string{"x"}, nonInstance: true,
 		patch: "@@\nvar x identifier\n@@\n-use(x)\n+use2(x)\n",
 		minus: "package p\n\nvar v = ⟦use(«x:(a)»)⟧\n"},
+	// things that satisfy ast.Expr without being expressions
+	{name: "expr-mv-key-value-element", nonInstance: true,
+		patch: "@@\nvar x expression\n@@\n-T{x}\n+T{x, x}\n",
+		minus: "package p\n\nvar v = ⟦T{«x:a: 1»}⟧\n"},
+	{name: "expr-mv-variadic-parameter-type", nonInstance: true,
+		patch: "@@\nvar x expression\n@@\n-func f(a x) {}\n+func f(a []x) {}\n",
+		minus: "package p\n\n⟦func f(a «x:...int») {}⟧\n"},
+	{name: "expr-mv-inferred-array-length", nonInstance: true,
+		patch: "@@\nvar n expression\n@@\n-[n]int{1}\n+make([]int, n)\n",
+		minus: "package p\n\nvar v = ⟦[«n:...»]int{1}⟧\n"},
+	{name: "expr-mv-elided-type-literal", nonInstance: true,
+		patch: "@@\nvar x expression\n@@\n-[]T{x}\n+[]T{wrap(x)}\n",
+		minus: "package p\n\nvar v = ⟦[]T{«x:{1}»}⟧\n"},
 	{name: "expr-mv-kinds",
 		patch: "@@\nvar a, b, c, d, e expression\n@@\n-five(a, b, c, d, e)\n+five(e, d, c, b, a)\n",
 		minus: "package p\n\nvar v = ⟦five(«a:n», «b:\"s\"», «c:x.y.z», «d:f(1)(2)», «e:func() int { return 3 }»)⟧\n"},
